@@ -1,10 +1,13 @@
 import AquaVerif.Model.GroundwaterTable
 import AquaVerif.Model.GroundwaterInflow
 import AquaVerif.Proofs.GwCommon
+import AquaVerif.Proofs.PowSq
 /-
 Lemmas about `checkGroundwaterTable` (`Model/GroundwaterTable.lean`) at an arbitrary ordered
-field.  No law of `F` is needed: the parabola factor is in `[0,1]` because the branch conditions
-give `0 < zGW − zMid < Xmax` (so `Xmax > 0` whatever `exp` is).
+field.  The only law of `F` needed is `PowSqLaw` (`x ** 2 = x · x`, for the range of the adjusted
+field capacity): the parabola factor is in `[0,1]` because the branch conditions give
+`0 < zGW − zMid < Xmax` (so `Xmax > 0` whatever `exp` is).  The frame (`th`, `flux`, `aer`,
+parameters untouched), the early exit and the `wt_in_soil` flag need no law at all.
 -/
 
 set_option linter.unusedSectionVars false
@@ -14,9 +17,11 @@ variable {α : Type} [Field α] [LinearOrder α] [IsStrictOrderedRing α]
 
 /-- adjusted field capacity of a compartment less than `xmax` above the table lies between field
 capacity and saturation. -/
-theorem gwFcAdj_range (zGW xmax : α) (c : Comp α) (hfs : c.thFC ≤ c.thS)
-    (hx : zGW - c.zMid < xmax) : c.thFC ≤ gwFcAdj zGW xmax c ∧ gwFcAdj zGW xmax c ≤ c.thS := by
+theorem gwFcAdj_range {F : Fn α} (hF : PowSqLaw F) (zGW xmax : α) (c : Comp α)
+    (hfs : c.thFC ≤ c.thS) (hx : zGW - c.zMid < xmax) :
+    c.thFC ≤ gwFcAdj F zGW xmax c ∧ gwFcAdj F zGW xmax c ≤ c.thS := by
   unfold gwFcAdj
+  simp only [hF.pow_two]
   by_cases h1 : c.thS ≤ c.thFC
   · simp only [h1, if_true]; exact ⟨le_refl _, hfs⟩
   · by_cases h2 : zGW ≤ c.zMid
@@ -44,7 +49,7 @@ def GwtRel (x y : Cell α) : Prop :=
 theorem resetFC_rel (x : Cell α) : GwtRel x x.resetFC :=
   ⟨rfl, rfl, rfl, rfl, fun h => ⟨le_refl _, h⟩⟩
 
-theorem gwtLoop_rel (F : Fn α) (zGW : α) (rev : List (Cell α)) :
+theorem gwtLoop_rel {F : Fn α} (hF : PowSqLaw F) (zGW : α) (rev : List (Cell α)) :
     List.Forall₂ GwtRel rev (gwtLoop F zGW rev) := by
   induction rev with
   | nil => simp [gwtLoop]
@@ -56,7 +61,21 @@ theorem gwtLoop_rel (F : Fn α) (zGW : α) (rev : List (Cell α)) :
     · simp only [gwtLoop, h, if_false]
       rw [not_or, not_lt, not_le] at h
       exact List.Forall₂.cons
-        ⟨rfl, rfl, rfl, rfl, fun hfs => gwFcAdj_range zGW _ x.c hfs h.2⟩ ih
+        ⟨rfl, rfl, rfl, rfl, fun hfs => gwFcAdj_range hF zGW _ x.c hfs h.2⟩ ih
+
+/-- the frame of the loop: parameters, `th`, `flux`, `aer` untouched — for every `F`, no law -/
+theorem gwtLoop_frame (F : Fn α) (zGW : α) (rev : List (Cell α)) :
+    List.Forall₂ (fun x y : Cell α => y.c = x.c ∧ y.th = x.th ∧ y.flux = x.flux ∧ y.aer = x.aer)
+      rev (gwtLoop F zGW rev) := by
+  induction rev with
+  | nil => simp [gwtLoop]
+  | cons x xs ih =>
+    by_cases h : zGW < 0 ∨ gwXmax F x.c.thFC ≤ zGW - x.c.zMid
+    · simp only [gwtLoop, h, if_true]
+      rw [List.forall₂_map_right_iff]
+      exact List.forall₂_same.mpr (fun y _ => ⟨rfl, rfl, rfl, rfl⟩)
+    · simp only [gwtLoop, h, if_false]
+      exact List.Forall₂.cons ⟨rfl, rfl, rfl, rfl⟩ ih
 
 /-- the early exit at the first (= bottom) compartment resets everything -/
 theorem gwtLoop_far (F : Fn α) (zGW : α) (x : Cell α) (xs : List (Cell α))
@@ -68,39 +87,55 @@ theorem gwtLoop_far (F : Fn α) (zGW : α) (x : Cell α) (xs : List (Cell α))
 
 /-- **Frame + `fcAdj_range`** (pointwise, in profile order): `th`, `flux`, `aer` and the
 parameters are untouched, and `thFC ≤ fcAdj' ≤ thS` wherever `thFC ≤ thS`. -/
-theorem checkGroundwaterTable_rel (F : Fn α) (cells : List (Cell α)) (zGW : α) (r : GwtOut α)
-    (h : checkGroundwaterTable F cells 1 zGW = some r) : List.Forall₂ GwtRel cells r.cells := by
+theorem checkGroundwaterTable_rel {F : Fn α} (hF : PowSqLaw F) (cells : List (Cell α)) (zGW : α)
+    (r : GwtOut α) (h : checkGroundwaterTable F cells 1 zGW = some r) :
+    List.Forall₂ GwtRel cells r.cells := by
   unfold checkGroundwaterTable at h
   by_cases hz : 0 ≤ zGW
   · simp only [hz, if_true] at h
     rw [← Option.some.inj h]
     simp only
     rw [← List.forall₂_reverse_iff, List.reverse_reverse]
-    exact gwtLoop_rel F zGW cells.reverse
+    exact gwtLoop_rel hF zGW cells.reverse
+  · simp [hz] at h
+
+/-- **Frame** alone (pointwise, in profile order), for every `F` — no law. -/
+theorem checkGroundwaterTable_frame1 (F : Fn α) (cells : List (Cell α)) (zGW : α) (r : GwtOut α)
+    (h : checkGroundwaterTable F cells 1 zGW = some r) :
+    List.Forall₂ (fun x y : Cell α => y.c = x.c ∧ y.th = x.th ∧ y.flux = x.flux ∧ y.aer = x.aer)
+      cells r.cells := by
+  unfold checkGroundwaterTable at h
+  by_cases hz : 0 ≤ zGW
+  · simp only [hz, if_true] at h
+    rw [← Option.some.inj h]
+    simp only
+    rw [← List.forall₂_reverse_iff, List.reverse_reverse]
+    exact gwtLoop_frame F zGW cells.reverse
   · simp [hz] at h
 
 theorem checkGroundwaterTable_length (F : Fn α) (cells : List (Cell α)) (zGW : α) (r : GwtOut α)
     (h : checkGroundwaterTable F cells 1 zGW = some r) : r.cells.length = cells.length :=
-  (checkGroundwaterTable_rel F cells zGW r h).length_eq.symm
+  (checkGroundwaterTable_frame1 F cells zGW r h).length_eq.symm
 
 /-- **`fcAdj_range`**: after `checkGroundwaterTable` on well-formed compartments,
 `thFC ≤ fcAdj' ≤ thS` for every cell. -/
-theorem fcAdj_range (F : Fn α) (cells : List (Cell α)) (zGW : α) (r : GwtOut α)
+theorem fcAdj_range {F : Fn α} (hF : PowSqLaw F) (cells : List (Cell α)) (zGW : α) (r : GwtOut α)
     (hwf : ∀ x ∈ cells, x.c.WF) (h : checkGroundwaterTable F cells 1 zGW = some r) :
     ∀ y ∈ r.cells, y.c.WF ∧ y.c.thFC ≤ y.fcAdj ∧ y.fcAdj ≤ y.c.thS := by
   intro y hy
   obtain ⟨x, hx, hc, -, -, -, hr⟩ :=
-    gw_forall₂_mem_right (checkGroundwaterTable_rel F cells zGW r h) hy
+    gw_forall₂_mem_right (checkGroundwaterTable_rel hF cells zGW r h) hy
   have := hr (hwf x hx).fc_s
   exact ⟨hc ▸ hwf x hx, by rw [hc]; exact this.1, by rw [hc]; exact this.2⟩
 
 /-- the cell invariant is re-established for `fcAdj` and kept for `th` -/
-theorem checkGroundwaterTable_inv (F : Fn α) (cells : List (Cell α)) (zGW : α) (r : GwtOut α)
+theorem checkGroundwaterTable_inv {F : Fn α} (hF : PowSqLaw F) (cells : List (Cell α)) (zGW : α)
+    (r : GwtOut α)
     (hinv : ∀ x ∈ cells, x.Inv) (h : checkGroundwaterTable F cells 1 zGW = some r) :
     ∀ y ∈ r.cells, y.Inv := by
   intro y hy
   obtain ⟨x, hx, hc, hth, -, -, hr⟩ :=
-    gw_forall₂_mem_right (checkGroundwaterTable_rel F cells zGW r h) hy
+    gw_forall₂_mem_right (checkGroundwaterTable_rel hF cells zGW r h) hy
   have ix := hinv x hx
   have := hr ix.wf.fc_s
   exact ⟨hc ▸ ix.wf, by rw [hc, hth]; exact ix.th_lo, by rw [hc, hth]; exact ix.th_hi,
@@ -217,7 +252,7 @@ theorem groundwaterInflow_ok_of_check (F : Fn α) (cells cells' : List (Cell α)
 /-! ### non-vacuity: table at 0.45 m under two 0.1 m compartments (Xmax = 2 as `thFC = 0.3`) -/
 
 example :
-    (checkGroundwaterTable ⟨id, id, id, fun x _ => x, id, id, id, id, id⟩
+    (checkGroundwaterTable ⟨id, id, id, fun x _ => x * x, id, id, id, id, id⟩
       [⟨gwExComp (1/10) (1/20), 1/10, 3/10, 0, 0⟩, ⟨gwExComp (1/5) (3/20), 1/5, 3/10, 0, 0⟩]
       1 (9/20 : ℚ)).map (fun r => r.cells.map (·.fcAdj)) = some [107/250, 889/2000] := by
   simp only [checkGroundwaterTable, gwtLoop, gwXmax, gwFcAdj, gwExComp, List.reverse_cons,
